@@ -25,7 +25,7 @@ CHECK_DEADLOCK FALSE
 """
 
 
-def tlc_cases(rep, name, seed=None, timeout=3000, **kw):
+def tlc_cases(rep, name, seed=None, timeout=3000, workers=2, **kw):
     p = dict(part="lattice", maxmant=0, downexp=0, maxexp=0, nrandom=0, alphabet='"0"', maxtext=0, shard=0, nshards=1)
     p.update(kw)
     d = os.path.join(vlib.WORK, "cfg")
@@ -34,7 +34,7 @@ def tlc_cases(rep, name, seed=None, timeout=3000, **kw):
     with open(path, "w") as f:
         f.write(CFG % p)
     cases = []
-    res = run_tlc("NumFormat", path, workers=2, timeout=timeout, keep_lines=False, tag="c19" + name, seed=seed, xmx="3g",
+    res = run_tlc("NumFormat", path, workers=workers, timeout=timeout, keep_lines=False, tag="c19" + name, seed=seed, xmx="3g",
                   on_line=lambda t, o: cases.append(o) if t == "CASE" else None)
     os.remove(path)
     log("[c19] TLC %s: %d cases in %.0fs" % (name, len(cases), res.wall))
@@ -184,9 +184,9 @@ def main(tier, seed):
     nsh = 6 if quick else 12
     with ThreadPoolExecutor(max_workers=7) as ex:
         if quick:
-            jobs.append(ex.submit(tlc_cases, rep, "lattice", part="lattice", maxmant=40, downexp=6, maxexp=8))
+            jobs.append(ex.submit(tlc_cases, rep, "lattice", workers=6, part="lattice", maxmant=32, downexp=6, maxexp=8))
         else:
-            jobs.append(ex.submit(tlc_cases, rep, "lattice", part="lattice", maxmant=1024, downexp=8, maxexp=20, timeout=20000))
+            jobs.append(ex.submit(tlc_cases, rep, "lattice", workers=8, part="lattice", maxmant=1024, downexp=8, maxexp=20, timeout=20000))
         for s in range(nsh):
             jobs.append(ex.submit(tlc_cases, rep, "bounds%d" % s, part="bounds", shard=s, nshards=nsh))
         for s in range(4 if quick else 16):
